@@ -370,8 +370,8 @@ def cases(tier, rng, extended=False):
         x, y, z = [gen.residue(rng, n) for _ in range(3)]
         yield Case(f"suyama_ops {n} {x} {y} {z}", o=False)
     # small moduli: curve construction hits its error paths (factor found while building the curve)
-    # (n > 10582: Suyama11::new feeds its constants 361, 10582 unreduced to from_int, a debug_assert for smaller n)
-    for n in (10583, 10585, 10589 * 10597, 3011 * 3259, 311 * 3259, 8596409 * 2621197441, 65537 * 65539, 1000003 * 1000033):
+    for n in (5, 7, 11, 35, 55, 77, 91, 1001, 10007, 10583, 10589 * 10597, 3011 * 3259, 311 * 3259, 8596409 * 2621197441,
+              65537 * 65539, 1000003 * 1000033):
         for seed in (2, 3, 5, 31):
             yield Case(f"suyama {n} {seed}", k=False)
             yield Case(f"ecm_mul {n} s {seed} 12", k=False, o=False)
@@ -537,6 +537,14 @@ def oracle(case, ans):
             return None if f > 1 and n % f == 0 else "reported factor does not divide n"
         return None if on_curve(n, -1, int(g[4]), Gp) else "generator is not on the curve with the computed d"
     return None
+
+
+K_OPS = {"chain64", "chain1024", "ed_ops", "ed128_ops", "suyama_ops", "ed_chainmul", "ed_chainmul1024", "ed128_chainmul"}
+
+
+def corpus_case(line):
+    """corpus lines: ops the Lean driver models are compared (K), every line is judged by the oracle"""
+    return Case(line, k=line.split(" ", 1)[0] in K_OPS)
 
 
 def klass(case, ans):
